@@ -12,9 +12,15 @@
         (output position, then the sibling edge records of the event — hook H1), and
     `t <a> <b> <c>`                                                             per `add_triangle`.
   `panic` / `unmodelled <which>` / `fuel` stand alone.
+
+  Family `sweepc:32` (curved input, `Model/Tess/SweepCurves.lean`) is described further down.
+  `sweepcov` / `sweepccov` (the branches a case went through, names in `Sweep.covNames`) and
+  `sweepwhy` / `sweepcwhy` (the reason behind a panic / unmodelled outcome) are diagnosis aids: feed
+  them the CASE lines with the family name replaced; they are not part of the tie.
 -/
 import LyonVerif.Drive.Common
 import LyonVerif.Model.Tess.Sweep
+import LyonVerif.Model.Tess.SweepCurves
 
 namespace Lyon.Drive.Sweep
 open Lyon Lyon.Drive Lyon.Sweep Lyon.EQ
@@ -70,8 +76,97 @@ def sweepCov (v : Array String) : String :=
   let c := (run (α := α) v).2.2
   unwords ((covNames.zipIdx.filter (fun p => (c >>> p.2) % 2 == 1)).map (·.1))
 
+/-! ### curved input: family `sweepc`
+
+  `CASE <id> sweepc:32 <rule> <orientation> <tolerance> <entry events|path|ids|idsattr|builder>
+        <handle_intersections 0/1> <num_attributes> <ncmds>
+        (B <x> <y> <attr>* | L <x> <y> <attr>* | Q <cx> <cy> <x> <y> <attr>* |
+         C <c1x> <c1y> <c2x> <c2y> <x> <y> <attr>* | E <close 0/1>)*`
+  (`num_attributes` values after every endpoint: the `Path` / `FillBuilder` was built with them).
+  Entry points: `events` = `tessellate(path.iter())`; `path` = `tessellate_path(&path)` (through
+  the ids exactly when the path has attributes); `ids` = `tessellate_with_ids(path.id_iter(), &path,
+  None)`; `idsattr` = the same with `Some(&path)` as attribute store; `builder` = `builder()` /
+  `builder_with_attributes(n)` with `begin / line_to / quadratic_bezier_to / cubic_bezier_to / end`.
+  Answer: as for `sweep`, and after the records of every vertex, when the entry point carries an
+  attribute store with `n > 0` attributes, `a <attr>{n}` = `FillVertex::interpolated_attributes()`. -/
+
+open Lyon.SweepCurves in
+/-- the commands and the attribute values per endpoint -/
+def rdCmds (v : Array String) (nattr : Nat) : Nat → Nat → List (Cmd α) × Array (Array α) → List (Cmd α) × Array (Array α)
+  | 0, _, acc => (acc.1.reverse, acc.2)
+  | n+1, i, acc =>
+    let attrs (j : Nat) : Array α := ((List.range nattr).map fun k => rd v (j + k)).toArray
+    match v.getD i "" with
+    | "B" => rdCmds v nattr n (i + 3 + nattr) (.begin (rdP v (i+1)) :: acc.1, acc.2.push (attrs (i+3)))
+    | "L" => rdCmds v nattr n (i + 3 + nattr) (.line (rdP v (i+1)) :: acc.1, acc.2.push (attrs (i+3)))
+    | "Q" => rdCmds v nattr n (i + 5 + nattr) (.quad (rdP v (i+1)) (rdP v (i+3)) :: acc.1, acc.2.push (attrs (i+5)))
+    | "C" => rdCmds v nattr n (i + 7 + nattr)
+               (.cubic (rdP v (i+1)) (rdP v (i+3)) (rdP v (i+5)) :: acc.1, acc.2.push (attrs (i+7)))
+    | "E" => rdCmds v nattr n (i + 2) (.end_ (rdNat v (i+1) == 1) :: acc.1, acc.2)
+    | _ => (acc.1.reverse, acc.2)
+
+open Lyon.SweepCurves in
+/-- `(id mode, carries an attribute store)` of an entry point -/
+def modeOf (entry : String) (nattr : Nat) : IdMode × Bool :=
+  if entry == "events" then (.none, false)
+  else if entry == "path" then (if nattr > 0 then (.path nattr, true) else (.none, false))
+  else if entry == "ids" then (.path nattr, false)
+  else if entry == "idsattr" then (.path nattr, true)
+  else (.builder, nattr > 0)
+
+variable [Transc α] [FlatConst α]
+
+open Lyon.SweepCurves in
+def runC (v : Array String) : (Option Fail × Array (Emit α) × Nat) × (Emit α → String) :=
+  let rule : Slab.Rule := if rdNat v 0 == 0 then .evenOdd else .nonZero
+  let horizontal := rdNat v 1 == 1
+  let tol : α := rd v 2
+  let nattr := rdNat v 5
+  let m := modeOf (v.getD 3 "") nattr
+  let hi := rdNat v 4 == 1
+  let cv := rdCmds (α := α) v nattr (rdNat v 6) 7 ([], #[])
+  let r := SweepCurves.tessellate m.1 rule horizontal tol hi cv.1
+  let fE : Emit α → String := fun e =>
+    match e with
+    | .vertex _ recs =>
+      if m.2 && nattr > 0 then
+        unwords ([fEmit e, "a"] ++ (vertexAttrs r.2 cv.2 nattr recs).map fx)
+      else fEmit e
+    | .tri _ _ _ => fEmit e
+  (r.1, fE)
+
+def fResultWith (fE : Emit α → String) (r : Option Fail × Array (Emit α) × Nat) : String :=
+  let r := (r.1, r.2.1)
+  match r.1 with
+  | some (.panic _) => "panic"
+  | some (.unmodelled w) => "unmodelled " ++ w
+  | some .fuel => "fuel"
+  | some (.err k) => unwords (("err " ++ k) :: r.2.toList.map fE)
+  | none => unwords ("ok" :: r.2.toList.map fE)
+
+def sweepC (v : Array String) : String :=
+  let r := runC (α := α) v
+  fResultWith r.2 r.1
+
+def sweepCCov (v : Array String) : String :=
+  let c := (runC (α := α) v).1.2.2
+  unwords ((covNames.zipIdx.filter (fun p => (c >>> p.2) % 2 == 1)).map (·.1))
+
+/-- diagnosis only (not part of the tie): the reason behind a `panic` / `unmodelled` / `fuel` outcome -/
+def whyOf (r : Option Fail × Array (Emit α) × Nat) : String :=
+  match r.1 with
+  | some (.panic w) => "panic: " ++ w
+  | some (.unmodelled w) => "unmodelled: " ++ w
+  | some .fuel => "fuel"
+  | some (.err k) => "err " ++ k
+  | none => "ok"
+
 def families : List Family := [
+  ⟨"sweepwhy", fun v => whyOf (run (α := Float32) v), fun v => whyOf (run (α := Float32) v)⟩,
+  ⟨"sweepcwhy", fun v => whyOf (runC (α := Float32) v).1, fun v => whyOf (runC (α := Float32) v).1⟩,
   ⟨"sweep", sweep (α := Float32), sweep (α := Float32)⟩,
-  ⟨"sweepcov", sweepCov (α := Float32), sweepCov (α := Float32)⟩ ]
+  ⟨"sweepcov", sweepCov (α := Float32), sweepCov (α := Float32)⟩,
+  ⟨"sweepc", sweepC (α := Float32), sweepC (α := Float32)⟩,
+  ⟨"sweepccov", sweepCCov (α := Float32), sweepCCov (α := Float32)⟩ ]
 
 end Lyon.Drive.Sweep
